@@ -12,6 +12,13 @@ clients were told, not only from the log's own `synced_up_to`: a write whose `ap
 sync policy and went on after the sync latency (observed through recording subclasses of the real policies), and
 under SyncEveryWrite every write whose `put()` / `delete()` returned, is durable — with every write of a smaller
 sequence number (an fsync covers the entries appended before it).
+A second family (`crashes`, 30 % of the cases) is a SEQUENCE of crashes on one tree and one log: 2–3 phases, each its own
+worker scripts in a fresh `Simulation` over the same `LSMTree` / `WriteAheadLog` objects (operations in flight at a crash
+are abandoned), each ended by crash / recover / read / recover / read / crash / recover / read.  The first crash usually
+loses an unsynced tail or an append in flight, so the surviving log has a gap in its sequence numbers; later phases write,
+flush (with other writers' entries fsynced during the flush's SSTable write latency) and compact over the recovered state.
+Every phase is judged (`judgePhases`): the reads after the previous crash cycle are the durable baseline (one synthetic
+completed durable write per key), values of earlier phases that are not in the baseline must not come back.
 Quick tier samples crash indices per workload — always including the indices just after a write's last segment,
 all of them for the sync-overlap bursts (writers whose fsyncs overlap) — thorough enumerates every index.
 """
@@ -87,6 +94,167 @@ def ack_points(base, sched):
     return {k for k in out if k <= len(sched)}
 
 
+def config_lines_phases(case):
+    body = config_lines(dict(case, workers=[]))
+    for opid, op in I.phase_ops(case):
+        body.append(f"op {opid} " + " ".join(map(str, op)))
+    return body
+
+
+def run_crashes(case):
+    """-> (transcript lines, rec, bounds) of a multi-crash case"""
+    out = []
+
+    def on_crash(p, rec, lsm, wal, first):
+        done = I.sync_done_ops(rec)
+        out.append(f"phase {p}")
+        mine = [opid for opid in sorted(rec.ops) if opid // 1000 == p]
+        for opid in mine:
+            op, b, e, r = rec.ops[opid][:4]
+            out.append(f"op {opid} {b} {'x' if e is None else e} {'x' if r is None else r}")
+        for opid in mine:
+            e = rec.ops[opid]
+            if e[0][0] in ("put", "del"):
+                out.append(f"w {opid} {e[4]} {e[1]} {'x' if e[2] is None else e[2]} {1 if opid in done else 0}")
+        out.append(f"synced {wal.synced_up_to}")
+        out.append(f"appended {wal.stats.writes}")
+        lsm.crash()
+        lsm.recover_from_crash()
+        out.append("r1 " + reads(case, lsm))
+        out.append(f"walsize {wal.size}")
+        lsm.recover_from_crash()
+        out.append("r2 " + reads(case, lsm))
+        lsm.crash()
+        lsm.recover_from_crash()
+        out.append("r3 " + reads(case, lsm))
+        summ = {d["level"]: (d["sstables"], d["total_keys"]) for d in lsm.level_summary}
+        out.append("levels " + " ".join(f"{summ.get(i, (0, 0))[0]}:{summ.get(i, (0, 0))[1]}" for i in range(case["levels"])))
+
+    rec, bounds = I.run_phases(case, on_crash)
+    return out, rec, bounds
+
+
+_PH: dict = {}
+
+
+def observe_phases(case):
+    """(global schedule, oracle, phase bounds) of the real multi-crash run (deterministic; cached)"""
+    key = json.dumps(case, sort_keys=True)
+    if key not in _PH:
+        if len(_PH) > 5000:
+            _PH.clear()
+        _out, rec, bounds = run_crashes(case)
+        _PH[key] = (list(rec.sched), list(rec.oracle), bounds)
+    return _PH[key]
+
+
+def _phase_flush_overlap(rng, nk, p, lat):
+    """one writer fills the memtable with distinct keys (a flush starts and spends its SSTable write latency), one or
+    two others write — and get their WAL entries fsynced — while that flush is in flight: the flush's truncation
+    bound lies below entries that so far live only in the log and the new memtable"""
+    v = [1000 * p]
+
+    def nv():
+        v[0] += 1
+        return v[0]
+
+    ks = list(range(nk))
+    rng.shuffle(ks)
+    a = []
+    for k in ks[:rng.choice([2, 3, nk])]:
+        a.append(["put", k, nv()])
+        if rng.random() < 0.3:
+            a.append(["sleep", rng.choice([0, 10, lat["ww"]])])
+    workers = [{"start": 0, "ops": a}]
+    t_fill = len(a) * (lat["ww"] + 100)
+    for _ in range(rng.choice([1, 1, 2])):
+        ops = []
+        for j in range(rng.choice([1, 2, 3])):
+            if j and rng.random() < 0.5:
+                ops.append(["sleep", rng.choice([0, 10, lat["ww"], lat["ws"] // 2])])
+            ops.append(["put", rng.randrange(nk), nv()] if rng.random() < 0.85 else ["del", rng.randrange(nk)])
+        workers.append({"start": rng.choice([t_fill // 2, t_fill, t_fill + lat["w"] // 4, t_fill + lat["w"] // 2, t_fill + lat["ws"]]), "ops": ops})
+    return workers
+
+
+def _phase_workers(rng, tier, nk, p, lat):
+    """worker scripts of one phase over `nk` keys, values made distinct across phases"""
+    r = rng.random()
+    if r < 0.45:
+        return _phase_flush_overlap(rng, nk, p, lat)
+    if r < 0.6:
+        src = gen_sync_overlap(rng, tier)
+    else:
+        src = gen_lsm_case(rng, tier, wal_force=True)
+    ws = json.loads(json.dumps(src["workers"]))
+    for w in ws:
+        for op in w["ops"]:
+            if op[0] in ("put", "del", "get"):
+                op[1] %= nk
+            elif op[0] == "scan":
+                op[1] %= nk
+                op[2] = min(max(op[2], op[1]), nk)
+            if op[0] == "put":
+                op[2] += 1000 * p
+    return ws
+
+
+def gen_crashes_base(rng, tier):
+    """2–3 phases on one tree: the first crash usually loses something (an unsynced SyncOnBatch / SyncPeriodic tail or
+    an append in flight), which leaves a gap in the WAL sequence numbers; later phases write on, flush and compact
+    over the recovered state and crash again"""
+    base = gen_sync_overlap(rng, tier) if rng.random() < 0.3 else gen_lsm_case(rng, tier, wal_force=True)
+    nk = len(base["keys"])
+    if rng.random() < 0.5:
+        base["wal"] = rng.choice([["batch", 2], ["batch", 3], ["periodic", rng.choice([1500, 4000])], ["batch", 2]])
+    if rng.random() < 0.6:
+        base["mem"] = rng.choice([2, 2, 3, 3, 4, 6])
+    if rng.random() < 0.5:
+        # fsync faster than an SSTable write: writes issued during a flush are durable before the flush installs
+        base["lat"] = dict(base["lat"], ws=rng.choice([100, 300]), w=rng.choice([2000, 3000]))
+    phases = [{"workers": base["workers"], "crash": None}]
+    for p in range(1, rng.choice([2, 2, 3])):
+        phases.append({"workers": _phase_workers(rng, tier, nk, p, base["lat"]), "crash": None})
+    case = {k: v for k, v in base.items() if k != "workers"}
+    case["family"] = "crashes"
+    case["phases"] = phases
+    return case
+
+
+def pick_crashes(rng, base, dense):
+    """choose the crash index of every phase in turn (each phase's length depends on the earlier crash points)"""
+    case = json.loads(json.dumps(base))
+    for p in range(len(case["phases"])):
+        probe = dict(case, phases=case["phases"][:p + 1])
+        probe["phases"][p] = dict(probe["phases"][p], crash=None)
+        sched, _, bounds = observe_phases(probe)
+        first, last = bounds[p]
+        n = last - first
+        kinds = dict(I.phase_ops(case))
+        lastseg = {}
+        for i in range(first, last):
+            lastseg[sched[i]] = i - first
+        acks = sorted({i + d for opid, i in lastseg.items() if kinds.get(opid, ["?"])[0] in ("put", "del") for d in (1, 2, 3) if i + d <= n})
+        firstseg = {}
+        for i in range(last - 1, first - 1, -1):
+            firstseg[sched[i]] = i - first
+        # 1–2 segments into a write: its WAL entry is appended but its sync has not completed — a crash here loses it
+        # and leaves a gap in the sequence numbers of the surviving log
+        inflight = sorted({i + d for opid, i in firstseg.items() if kinds.get(opid, ["?"])[0] in ("put", "del") for d in (1, 2) if i + d <= n})
+        r = rng.random()
+        lastphase = p == len(case["phases"]) - 1
+        if n == 0 or r < 0.15:
+            k = None                                   # the phase runs to its end (an unsynced tail may remain)
+        elif not lastphase and r < 0.6 and inflight:
+            k = rng.choice(inflight)
+        elif r < (0.5 if lastphase else 0.75) and acks:
+            k = rng.choice(acks)
+        else:
+            k = rng.randint(1, n)
+        case["phases"][p]["crash"] = k
+    return case
+
+
 class C15(core.Property):
     id = "C15"
     driver = "drv-c15"
@@ -104,7 +272,12 @@ class C15(core.Property):
             "1–3 writes each, start offsets and pauses 0 / 10 µs / write latency / ¼, ½, 1 sync latency ± 10 µs apart so that an append "
             "reaches its sync decision while another append's fsync is in flight; memtable 1–8; 60 % SyncEveryWrite); quick: 6 sampled k "
             "per workload (always 0-th, last and random ones) plus the indices 1–3 segments after the last segment of a write (its "
-            "acknowledgement) — all of them for the bursts, 4 sampled otherwise; thorough: every k of every workload; non-trivial when at least one WAL sync had completed and at least one "
+            "acknowledgement) — all of them for the bursts, 4 sampled otherwise; thorough: every k of every workload. family crashes (30 %): "
+            "2–3 phases over one tree and log (first phase as above, often re-drawn to SyncOnBatch(2–3) / SyncPeriodic, memtable 2–6, fsync "
+            "faster than an SSTable write; later phases: 45 % flush-overlap scripts — one writer fills the memtable with distinct keys, 1–2 others "
+            "write 1–3 entries 0.5–1 fill times / ¼–½ flush latencies later —, else sync-overlap bursts or general scripts, values offset by "
+            "1000·phase); 10 crash-index vectors per workload (40 in thorough): per phase 15 % run to the end, non-final phases 45 % 1–2 segments "
+            "into a write (append in flight: lossy crash, sequence gap), else 1–3 segments after a write's last segment or uniform; non-trivial when at least one WAL sync had completed and at least one "
             "write was started before the crash; distinct = distinct (workload, k)")
     trusted_base = C14.trusted_base + [
         "WAL sequence number of a write = wal.stats.writes + 1 read just before the operation starts (public API)",
@@ -116,7 +289,10 @@ class C15(core.Property):
         "a write is durable iff its WAL sequence number ≤ wal.synced_up_to at the crash, or ≤ the sequence number of a write whose sync "
         "the clients saw complete (the sync policy answered 'sync now' inside that write and the write went on after the sync latency; "
         "under SyncEveryWrite also: its put()/delete() returned) — an fsync covers every entry appended before it",
-        "the simulation is not continued after crash() (in-flight generators are abandoned)",
+        "operations in flight at a crash are abandoned (their generators are never resumed); a later phase of a multi-crash case runs in a "
+        "fresh Simulation over the same LSMTree / WriteAheadLog objects, 100 s of simulated time after the previous phase began",
+        "multi-crash cases: the reads after a crash cycle are the durable baseline of the next phase (they are served from the surviving log "
+        "or from SSTables; the third read of every cycle — after a second crash + recover — checks exactly that)",
     ]
     hypotheses = [
         "syncsInOrderB (sync_done_durable, acked_every_sync_done, ack_bound_le_synced, crash_spec_ack): sync completions happen in the order of "
@@ -139,6 +315,17 @@ class C15(core.Property):
                                    "with every write of a smaller sequence number) as well as from synced_up_to. crash_spec_ack / crash_spec_ack_at_every_index: the "
                                    "model's own observations satisfy it for every workload, policy, schedule and crash index under the crash_spec hypotheses plus "
                                    "syncsInOrderB; sync_done_durable / acked_every_sync_done: every such write has sequence number <= synced_up_to in the model.",
+        "multi_crash_spec_full": "sequences of crashes (HappyModel/C15/Phases.lean, judgePhases). Stated as def multi_crash_spec_full (Phases.lean): the model's own "
+                                   "observations of every phase of every sequence of crashes satisfy judgePhases. Proved: the first phase in full "
+                                   "(multi_crash_first_phase / multi_crash_first_of_runPhases, = crash_spec_ack); for every phase of every sequence from any start system: "
+                                   "recovering twice / crashing again gives the same reads (phase_recover_idempotent), a recovered cell is a surviving log entry's or an "
+                                   "SSTable's (phase_no_invention), a crash cycle with nothing executed returns the baseline (idle_phase_after, recovered_is_durable); and the "
+                                   "state-level contracts a second crash relies on, for every state: sequence numbers are not rewound (crash_keeps_nextSeq: the surviving log "
+                                   "has gaps), crash keeps exactly the entries <= synced_up_to (crash_wal), a flush's truncation drops only entries <= its bound whatever gaps "
+                                   "the log has (flushInstall_keeps_newer, flushInstall_wal_sub). NOT proved: durable_survive / no_resurrection for the phases after the first "
+                                   "crash — the run invariants LInv / WInv (ghost log of memtable inserts tied to frames) are established from a fresh tree only; "
+                                   "re-establishing them for a recovered state with abandoned operations is open. Those clauses are checked by the Lean judge on every "
+                                   "multi-crash case and the model is compared with the implementation after every crash.",
         "no_invention": "state level (HappyModel.C15.no_invention): a recovered cell is the cell of a surviving log entry of that key or is held by an SSTable; "
                         "run level: crash_facts_run gives a started put of the workload for every recovered value.",
     }
@@ -147,6 +334,11 @@ class C15(core.Property):
         self._queue = []
 
     def generate(self, rng: random.Random, i: int, tier: str) -> dict:
+        if not self._queue and rng.random() < 0.3:
+            base = gen_crashes_base(rng, tier)
+            for _ in range(10 if tier == "quick" else 40):
+                self._queue.append(pick_crashes(rng, base, tier != "quick"))
+            self._queue.reverse()
         if not self._queue:
             overlap = rng.random() < 0.3
             base = gen_sync_overlap(rng, tier) if overlap else gen_lsm_case(rng, tier, wal_force=True)
@@ -168,6 +360,10 @@ class C15(core.Property):
 
     # ------------------------------------------------------------------ implementation
     def run_impl(self, case):
+        if case.get("family") == "crashes":
+            out, rec, bounds = run_crashes(case)
+            _PH[json.dumps(case, sort_keys=True)] = (list(rec.sched), list(rec.oracle), bounds)
+            return out
         k = case.get("crash")
         rec, lsm, wal = I.run_lsm(case, crash_at=k)
         remember(case, k, rec)
@@ -194,6 +390,15 @@ class C15(core.Property):
 
     # ------------------------------------------------------------------ model / judge
     def model_block(self, case, variant):
+        if case.get("family") == "crashes":
+            sched, oracle, bounds = observe_phases(case)
+            body = config_lines_phases(case)
+            if oracle:
+                body.append("oracle " + " ".join(map(str, oracle)))
+            for first, last in bounds:
+                body += sched_lines(sched[first:last], [])
+                body.append("crashpoint")
+            return ("crashes", body)
         sched, oracle = observe(case, crash_at=case.get("crash"))
         return ("crash", config_lines(case) + sched_lines(sched, oracle))
 
@@ -203,6 +408,12 @@ class C15(core.Property):
     def judge_block(self, case, impl_out):
         if not impl_out or impl_out[0].startswith("IMPL-"):
             return None
+        if case.get("family") == "crashes":
+            body = config_lines_phases(case)
+            for line in impl_out:
+                if line.split()[0] in ("phase", "w", "synced", "r1", "r2", "r3"):
+                    body.append(line)
+            return ("judge-crashes", body)
         body = config_lines(case)
         for line in impl_out:
             if line.split()[0] in ("w", "synced", "r1", "r2", "r3"):
@@ -213,6 +424,12 @@ class C15(core.Property):
         return out
 
     def nontrivial_key(self, case, impl_out):
+        if case.get("family") == "crashes":
+            # at least two crashes, a write started in the last phase, and a sync completed somewhere
+            nph = sum(1 for l in impl_out if l.startswith("phase "))
+            last = max((i for i, l in enumerate(impl_out) if l.startswith("phase ")), default=0)
+            ok = nph >= 2 and any(l.startswith("w ") for l in impl_out[last:]) and any(l.startswith("synced ") and l != "synced 0" for l in impl_out)
+            return json.dumps(case, sort_keys=True) if ok else None
         synced = 0
         nw = 0
         for line in impl_out:
@@ -226,6 +443,24 @@ class C15(core.Property):
         return None
 
     def shrink(self, case):
+        if case.get("family") == "crashes":
+            phs = case["phases"]
+            if len(phs) > 1:
+                yield dict(case, phases=phs[:-1])
+            for p, ph in enumerate(phs):
+                sub = dict(case, workers=ph["workers"])
+                for c in C14.shrink(self, sub):
+                    c2 = dict(case)
+                    c2["phases"] = [dict(x) for x in phs]
+                    c2["phases"][p]["workers"] = c["workers"]
+                    yield c2
+                k = ph.get("crash")
+                for k2 in ([k - 1, k // 2] if k else []):
+                    c2 = dict(case)
+                    c2["phases"] = [dict(x) for x in phs]
+                    c2["phases"][p]["crash"] = k2
+                    yield c2
+            return
         for c in C14.shrink(self, case):
             yield c
         k = case.get("crash")
@@ -236,6 +471,15 @@ class C15(core.Property):
                 yield c
 
     def mutate(self, case, rng):
+        if case.get("family") == "crashes":
+            c = json.loads(json.dumps(case))
+            ph = rng.choice(c["phases"])
+            if rng.random() < 0.6:
+                ph["crash"] = max(0, (ph["crash"] if ph["crash"] is not None else 20) + rng.choice([-3, -1, 1, 2, 5]))
+            else:
+                sub = C14.mutate(self, dict(c, workers=ph["workers"]), rng)
+                ph["workers"] = sub["workers"]
+            return c
         c = C14.mutate(self, case, rng)
         if c.get("crash") is not None and rng.random() < 0.5:
             c["crash"] = max(0, c["crash"] + rng.choice([-3, -1, 1, 2, 5]))
@@ -263,6 +507,17 @@ THEOREMS = [
     "HappyModel.C15.ack_bound_le_synced",
     "HappyModel.C15.crash_spec_ack",
     "HappyModel.C15.crash_spec_ack_at_every_index",
+    "HappyModel.C15.crash_keeps_nextSeq",
+    "HappyModel.C15.crash_wal",
+    "HappyModel.C15.flushInstall_keeps_newer",
+    "HappyModel.C15.flushInstall_wal_sub",
+    "HappyModel.C15.recovered_is_durable",
+    "HappyModel.C15.phase_recover_idempotent",
+    "HappyModel.C15.phase_no_invention",
+    "HappyModel.C15.idle_phase_keeps_baseline",
+    "HappyModel.C15.idle_phase_after",
+    "HappyModel.C15.multi_crash_first_phase",
+    "HappyModel.C15.multi_crash_first_of_runPhases",
 ]
 C15.theorems = THEOREMS
 PROPERTY = C15()
